@@ -66,6 +66,7 @@ type NodeRT struct {
 	CreatedSeq  int // global event sequence number when the node was created
 	CreatedRV   int // server version when the Subscribe/Clone call returned
 	WeClosed    bool
+	DrainPoints []DrainPoint // partial drains of a stalled reader, made at quiescent points
 	// SelfCloseAt > 0: the monitor's own handler calls Close() from inside its
 	// SelfCloseAt-th callback (the "watch until X, then stop" pattern)
 	SelfCloseAt int
@@ -435,7 +436,9 @@ func (h *H) reader(n *NodeRT) {
 			cands := n.filterCands(nil)
 			if list, err := sub.Cache().List(); err == nil {
 				cands = n.filterCands(cands)
-				h.checkSyncedAtReady(n, specsOf(list), cands)
+				specs := specsOf(list)
+				Scribble(list)
+				h.checkSyncedAtReady(n, specs, cands)
 			}
 		}
 	case <-sub.Done():
@@ -570,6 +573,37 @@ func (h *H) Drain(n *NodeRT) {
 	}
 }
 
+// DrainSome reads at most k events from a stalled subscriber (k <= 0: all that
+// are buffered) at a quiescent point and remembers where in the published
+// sequence that happened: the count oracle replays the buffer from these points.
+func (h *H) DrainSome(n *NodeRT, k int) int {
+	got := 0
+	for k <= 0 || got < k {
+		select {
+		case ev, ok := <-n.Sub.Events():
+			if !ok {
+				n.SawClose = true
+				n.DrainPoints = append(n.DrainPoints, DrainPoint{AtSeq: h.EvSeq, K: got})
+				return got
+			}
+			h.record(n, ev)
+			got++
+			continue
+		default:
+		}
+		break
+	}
+	// (recording bumps EvSeq: the boundary is what had been published before)
+	n.DrainPoints = append(n.DrainPoints, DrainPoint{AtSeq: h.EvSeq - got, K: got})
+	return got
+}
+
+// DrainPoint: K events were taken out when the global event sequence stood at AtSeq.
+type DrainPoint struct {
+	AtSeq int
+	K     int
+}
+
 func (h *H) handler(n *NodeRT) kcache.Handler {
 	enter := func(kind string, objs []Spec) int {
 		if n.monBusy {
@@ -649,7 +683,16 @@ func (h *H) handler(n *NodeRT) kcache.Handler {
 		hb = h.hb
 	}
 	return hb.
-		OnInitialize(func(objs []metav1.Object) { exit(enter("init", specsOf(objs))) }).
+		OnInitialize(func(objs []metav1.Object) {
+			specs := specsOf(objs)
+			for _, o := range objs {
+				if o == nil {
+					detsim.Fail("monitor-init-wrong-content", "%s: OnInitialize was handed a list with a nil element (a slice shared with another consumer)", n.Name())
+				}
+			}
+			Scribble(objs) // the list handed to OnInitialize is the handler's own
+			exit(enter("init", specs))
+		}).
 		OnCreate(one("create")).
 		OnUpdate(one("update")).
 		OnDelete(one("delete")).
@@ -698,7 +741,20 @@ func ListIDs(c kcache.CacheReader) ([]string, []Spec, bool) {
 	if err != nil {
 		return nil, nil, false
 	}
-	return IDs(objs), specsOf(objs), true
+	ids, specs := IDs(objs), specsOf(objs)
+	Scribble(objs)
+	return ids, specs, true
+}
+
+// Scribble destroys a slice the library returned, after the harness has taken
+// what it needs from it: a returned slice belongs to its caller, so this must
+// never show anywhere else (a memoised or shared backing array would).  Every
+// harness read does it - compacting or clearing a result in place is what
+// ordinary consumers do.
+func Scribble(objs []metav1.Object) {
+	for i := range objs {
+		objs[i] = nil
+	}
 }
 
 // ExpectRoot returns what the controller cache must hold when it equals the server.
@@ -779,7 +835,9 @@ func (h *H) SeedMirrors() {
 			continue
 		}
 		if list, err := n.Sub.Cache().List(); err == nil {
-			n.Mirror = NewMirror(n.Name(), specsOf(list))
+			specs := specsOf(list)
+			Scribble(list)
+			n.Mirror = NewMirror(n.Name(), specs)
 			n.Mirror.Strict = true
 			n.SeedStep = detsim.Steps()
 		}
